@@ -327,11 +327,9 @@ def report(ctx: Ctx, pid: str) -> None:
             fields = set(mm["diffs"])
             early = "answer" in mm["diffs"] and mm["diffs"]["answer"][0] in ("wait", "capacity exceeded", "conflict") \
                 and mm["diffs"]["answer"][1] == "ok"
-            props = {FIELD_PROP.get(f, "C09") for f in fields}
-            if early:
-                props.add("C08")
-            if fields <= {"free", "answer"} and ("free" in fields or early):
-                props.discard("C09")
+            # attribution: an early grant or a pure free_space difference speaks about C08 (accounting/admission);
+            # any other deviation of the status machine, readers, locks or bytes speaks about C09
+            props = {"C08"} if (early or fields == {"free"}) else {"C09"}
             if pid in props:
                 act = mm["action"][0]
                 ctx.violate(f"conformance:{act}:" + "+".join(sorted(fields)),
